@@ -389,6 +389,7 @@ static void on_callback(int slot, int b)
 		char de = s_w_users()[0].downenc ? s_w_users()[0].downenc : 'T';
 		if (israw) raw_menu(g->data, g->len); else build_menu(g->data, g->len, de);
 		for (int i = cur_part; i < nmenu + (israw ? 0 : NPRE + NTRAIN); i += NPART) {
+			if (getenv("C06_FILTER") && (i >= nmenu || !strstr(MENU[i].desc, getenv("C06_FILTER")))) continue;      /* debugging aid: only matching menu items */
 			if (xp_fork_wait() != 0) continue;
 			/* child */
 			in_child = 1;
